@@ -113,6 +113,7 @@ func cmdCheck(args []string) int {
 	common := fs.String("common", "/verif/spec/common.gospec", "shared spec definitions")
 	keep := fs.Bool("keep", false, "keep the SMT work directory")
 	slow := fs.Int("slow", 2000, "report obligations slower than this many ms (verbose)")
+	closure := fs.Bool("closure", os.Getenv("GOVC_NOCLOSURE") == "", "also verify every contracted callee the property's units depend on (transitively)")
 	overlayFile := fs.String("overlay", "", "json file {path: replacement-path} applied as source overlay")
 	fs.Parse(args)
 	t0 := time.Now()
@@ -229,6 +230,51 @@ func cmdCheck(args []string) int {
 			units = append(units, w.verifyFunction(pi, fn, c))
 		}
 	}
+	// Dependency closure: a unit is proved against the CONTRACTS of its callees, so the property also rests on
+	// every callee contract it used being discharged against the callee's body. Those units are added here
+	// (transitively) even when their own `props` line does not name this property.
+	nTagged := len(units)
+	if *closure && *only == "" && *prop != "all" {
+		have := map[*Contract]bool{}
+		for _, u := range units {
+			if u.unit != nil {
+				have[u.unit.c] = true
+			}
+		}
+		for i := 0; i < len(units); i++ {
+			u := units[i]
+			if u.unit == nil {
+				continue
+			}
+			var used []*Contract
+			for cc := range w.usedContracts[u.unit] {
+				used = append(used, cc)
+			}
+			sort.Slice(used, func(a, b int) bool { return used[a].File+used[a].Func < used[b].File+used[b].Func })
+			for _, cc := range used {
+				if have[cc] || cc.Trusted || cc.Inline {
+					continue
+				}
+				have[cc] = true
+				pi := w.pkgOfContract(cc)
+				if pi == nil || pi == w.commonPkg {
+					continue
+				}
+				var fn *ssa.Function
+				for f := range w.functionsOf(pi) {
+					if funcKey(f) == cc.Func {
+						fn = f
+					}
+				}
+				if fn == nil || fn.Blocks == nil {
+					continue // interface / func-typed / library contracts: assumptions, listed as such
+				}
+				nu := w.verifyFunction(pi, fn, cc)
+				nu.Dependency = true
+				units = append(units, nu)
+			}
+		}
+	}
 	tGen := time.Since(t0) - tLoad
 	to := 30
 	if *tier == "thorough" {
@@ -274,6 +320,9 @@ func cmdCheck(args []string) int {
 	os.MkdirAll(*replayDir, 0o755)
 	for _, u := range units {
 		fe := map[string]interface{}{"function": u.Name, "pos": u.Pos, "src_sha256_8": u.SrcHash, "obligations": len(u.Obls)}
+		if u.Dependency {
+			fe["included_as"] = "dependency (its contract is used by a unit of this property)"
+		}
 		if u.Trusted {
 			fe["status"] = "assumed (trusted / no body)"
 			note := ""
@@ -432,8 +481,8 @@ func cmdCheck(args []string) int {
 		data, _ := json.MarshalIndent(ev, "", " ")
 		os.WriteFile(*evPath, data, 0o644)
 	}
-	fmt.Printf("property=%s tier=%s units=%d obligations=%d discharged=%d known=%d covers=%d/%d load=%.1fs vcgen=%.1fs solve=%.1fs\n",
-		*prop, *tier, len(units), nObl, nDis-len(knownMatched), len(knownMatched), nCoverOK, nCover, tLoad.Seconds(), tGen.Seconds(), tSolve.Seconds())
+	fmt.Printf("property=%s tier=%s units=%d (tagged %d) obligations=%d discharged=%d known=%d covers=%d/%d load=%.1fs vcgen=%.1fs solve=%.1fs\n",
+		*prop, *tier, len(units), nTagged, nObl, nDis-len(knownMatched), len(knownMatched), nCoverOK, nCover, tLoad.Seconds(), tGen.Seconds(), tSolve.Seconds())
 	for _, v := range violations {
 		fmt.Println(v)
 	}
